@@ -62,7 +62,7 @@ def prepare(chk, rustflags="", only_modules=None):
     with open(lib, "a") as f:
         f.write("\n#[cfg(kani)]\npub(crate) mod verif_mapmodel;\n")
     redirected = 0
-    for root_, _, files in os.walk(os.path.join(crate, "src")):
+    for root_, _, files in os.walk(os.path.join(crate, "src")) if not os.environ.get("VERIF_NO_MAPMODEL") else []:
         for fn_ in files:
             if not fn_.endswith(".rs") or fn_.startswith("verif_"):
                 continue
@@ -72,7 +72,7 @@ def prepare(chk, rustflags="", only_modules=None):
             if new != txt:
                 redirected += 1
                 open(pth, "w").write(new)
-    if redirected < 5:
+    if redirected < 5 and not os.environ.get("VERIF_NO_MAPMODEL"):
         raise core.Inconclusive("HashMap redirect: only %d import lines found" % redirected)
     for fn, rel in module_files().items():
         if only_modules and fn not in only_modules:
@@ -83,7 +83,7 @@ def prepare(chk, rustflags="", only_modules=None):
         hashes["src/" + rel] = core.sha(os.path.join(core.REPO, "src", rel))
         body = open(os.path.join(HARNESS_DIR, fn)).read()
         with open(target, "a") as f:
-            f.write("\n#[cfg(kani)]\n#[allow(unused_imports, dead_code, unused_variables, unused_mut)]\nmod verif_kani {\n    use super::*;\n    use crate::verif_common::*;\n    use crate::trace;\n    use crate::native_harness;\n"
+            f.write("\n#[cfg(kani)]\n#[allow(unused_imports, dead_code, unused_variables, unused_mut)]\npub(crate) mod verif_kani {\n    use super::*;\n    use crate::verif_common::*;\n    use crate::trace;\n    use crate::native_harness;\n"
                     + body + "\n// VERIF-PLAYBACK-INSERT\n}\n")
     kc = core.KaniCrate(crate, os.path.join(core.CACHE, "target-crate"), "K-crate (Kani/CBMC)", rustflags)
     kc.hashes = hashes
@@ -113,6 +113,7 @@ DEFAULT_UNWIND_RULES = [
     (r"^std::ptr::drop_in_place::<.*(xexpr::XExpr|xtype::XType|xtype::XCompoundSpec|xvalue::XValue)", 1),
     (r"^<xexpr::XExpr<.*> as std::clone::Clone>::clone", 1),
     (r"^std::ptr::drop_glue::<std::io::Error>|^std::ptr::drop_glue::<runtime_violation::RuntimeViolation>", 1),
+    (r"^memcmp$", 24),  # string comparisons of identifiers / permission ids (<= 23 bytes)
 ]
 
 
